@@ -61,3 +61,34 @@ Theorem C18_lex_ident_rename_partial : forall x x' c v c' v' r,
     y' = y /\ rest y = r /\ off y = (off x + S (List.length v))%nat /\ line y = line x /\ col y = col x + Z.of_nat (S (List.length v)).
 Proof. exact lex_ident_rename. Qed.
 Print Assumptions C18_lex_ident_rename_partial.
+
+(* ---- composition at FILE level (Proofs/LexCompose.v), unbounded in the file: renaming one identifier lexeme to an admissible
+   one of the same length - IF both runs of the tokenizer stand at the lexeme with the same items so far (the prefix
+   assumption: tested on the real lexer for every sampled pair, not proved) THEN the complete results agree: the IDENTIFIER
+   token keeps type, line, column and raw span, EVERY later item, the final state and its diagnostics are identical, and
+   every covered observation of the token value is unchanged.  With C18_value_reads_covered the only other assumption is the
+   reviewed reader table.  (A consistent renaming of a whole file is a sequence of such single-site steps.) *)
+From NV Require Import Proofs.LexCompose.
+
+Theorem C18_rename_file_obs_partial : forall (uw ud : N -> bool) src src' k x accp c v c' v' r items xf guard f,
+  List.length src' = List.length src ->
+  run uw ud k (init src) [] (with_rest x ((c :: v) ++ r)) accp ->
+  run uw ud k (init src') [] (with_rest x ((c' :: v') ++ r)) accp ->
+  ident_site c v r -> ident_site c' v' r -> List.length v' = List.length v ->
+  assoc (c :: v) keywords = None -> assoc (c' :: v') keywords = None ->
+  pair_ok guard (c :: v, c' :: v') = true -> rename_inv f = true -> no_other f = true ->
+  lex uw ud src = Ok (items, xf) ->
+  exists later t t',
+    items = rev accp ++ ITok t (off x) (off x + S (List.length v)) :: later /\
+    lex uw ud src' = Ok (rev accp ++ ITok t' (off x) (off x + S (List.length v)) :: later, xf) /\
+    t_type t' = t_type t /\ t_line t' = t_line t /\ t_col t' = t_col t /\
+    t_val t = Some (c :: v) /\ t_val t' = Some (c' :: v') /\
+    forall o1 o2, eval_obs guard o1 f (c' :: v') = eval_obs guard o2 f (c :: v).
+Proof. exact rename_file_obs_partial. Qed.
+Print Assumptions C18_rename_file_obs_partial.
+
+(* one turn of the main loop on an identifier lexeme that is maximal and no encoding prefix of a literal (ident_site) *)
+Theorem C18_step_identifier : forall (uw ud : N -> bool) x c v r, ident_site c v r -> rest x = (c :: v) ++ r ->
+  step uw ud x = StepItem (ITok (ident_token x (c :: v)) (off x) (off x + S (List.length v))) (shift (S (List.length v)) x).
+Proof. exact step_identifier. Qed.
+Print Assumptions C18_step_identifier.
